@@ -272,6 +272,13 @@ def cases():
              builders=[{"name": "b0", "var_options": {"defines": {"prefix": "-D"}}, "env": {"defines": ["B0"]}}, {"name": "b1"}])
     f["laze-project.yml"][0]["contexts"][0]["rules"] = [{"name": "CC", "in": "c", "out": "o", "cmd": "cc ${defines} ${CFLAGS} -c ${in} -o ${out}"}, RULES[1]]
     out.append((f, {"define": ["defines+=GREETING=\"hello world\"", "CFLAGS+=two  blanks", "CFLAGS+= lead"]}))
+    # 40: a module inside another module's download directory that does NOT depend on the downloader and is
+    #     visited before it (both are in the build): its sources are still declared as created by the download
+    mods = [{"name": "early", "srcdir": "${build-dir}/dl/./late_dl/sub", "sources": ["early.c"]},
+            {"name": "late_dl", "download": git, "sources": ["late.c"]},
+            {"name": "other", "sources": ["other.c"]}]
+    out.append((dlbase(mods, [{"name": "app", "sources": ["main.c"], "selects": ["early", "other", "late_dl"]},       # selects do not import: no build-dep edge
+                              {"name": "app_without", "sources": ["main.c"], "depends": ["other", "late_dl"]}]), {}))
     # 31: a builder that both `disables:` a module and `provides_unique:` a feature; other providers of
     #     the feature (and the disabled module) are reached by apps: unique means the others are refused
     mods = [{"name": "stdio_uart", "provides": ["stdio"], "sources": ["uart.c"]},
